@@ -55,3 +55,32 @@ def int_value(work, V, cfg='MC_IntValue.cfg', limit=6000):
             if drift <= 2:
                 V.note('mechanism-drift: __get_int_value(%r): model %s, code %s' % (k, want, o))
     return [{'module': 'IntValue', 'cfg': cfg, 'distinct_states': r['distinct'], 'violation': r['violation'], 'forms_replayed_into_code': len(cases), 'drift': drift}]
+
+
+def choice_match(work, V):
+    """ChoiceMatch.tla: the scoring loop of ChoiceExtractor.match_value.  The configuration with the real index_of
+    (absent token 'found' at index 1) must violate ScoreInUnit, the one with a conventional -1 must not; every
+    (source, match) pair of the model is replayed into the real match_value and the top scores are compared."""
+    bad = tlc.run(work, 'ChoiceMatch', cfg='MC_ChoiceMatch.cfg', dump=True, extra=['-continue'], timeout=600)
+    good = tlc.run(work, 'ChoiceMatch', cfg='MC_ChoiceMatch_fixed.cfg', timeout=600)
+    finals = {}
+    for st in tlc.read_dump(bad['dump']):
+        if st['pc'] == 'raised':
+            finals[json.dumps([st['src'], st['mat']])] = 'raised'
+        elif st['pc'] == 'done':
+            num, den = st['best']
+            finals.setdefault(json.dumps([st['src'], st['mat']]), repr(round(0.0 if num == 0 else 0.4 + 0.6 * num / den, 9)))
+    for k in list(finals):
+        pass
+    keys = sorted(finals)
+    cases = [{'api': 'choicematch', 'src': json.loads(k)[0], 'mat': json.loads(k)[1]} for k in keys]
+    obs = pool.run_cases(cases, init_name='choice', batch=200, timeout=20.0)
+    drift = 0
+    for k, o in zip(keys, obs):
+        if o.get('top') != finals[k]:
+            drift += 1
+            if drift <= 2:
+                V.note('mechanism-drift: match_value%s: model %s, code %s' % (k, finals[k], o))
+    return [{'module': 'ChoiceMatch', 'cfg': 'MC_ChoiceMatch.cfg (index_of as written)', 'distinct_states': bad['distinct'], 'violation': bad['violation'], 'expected_violation': 'ScoreInUnit',
+             'pairs_replayed_into_code': len(cases), 'drift': drift},
+            {'module': 'ChoiceMatch', 'cfg': 'MC_ChoiceMatch_fixed.cfg', 'distinct_states': good['distinct'], 'violation': good['violation']}]
